@@ -417,14 +417,15 @@ def userdata_cases(mon, sc, rng, n):
             mon.check("userdata.define_parsing", False, dict(text=text, style=style, error=repr(ex)))
         mon.seen("define_style", style)
     # ---- -D overrides [behave.userdata] ----------------------------------------------------------------
+    file_names = names[:4] + ["BASE_URL", "camelCase"]        # user-data names are case-sensitive
     for i in range(max(20, n // 8)):
         sc.clear_files()
-        fdata = {k: rng.choice(["f1", "42", "yes", "0.5"]) for k in rng.sample(names[:4], rng.randint(1, 3))}
+        fdata = {k: rng.choice(["f1", "42", "yes", "0.5"]) for k in rng.sample(file_names, rng.randint(1, 3))}
         fname = rng.choice(["behave.ini", "pyproject.toml", "setup.cfg"])
         text = toml_text({}, fdata) if fname.endswith(".toml") else ini_text({}, fdata)
         with open(os.path.join(rng.choice([sc.cwd, sc.home]), fname), "w", encoding="utf-8") as fh:
             fh.write(text)
-        defines = {k: rng.choice(["c1", "7", "no", "2.5"]) for k in rng.sample(names, rng.randint(0, 3))}
+        defines = {k: rng.choice(["c1", "7", "no", "2.5"]) for k in rng.sample(names + ["BASE_URL", "camelCase"], rng.randint(0, 3))}
         args = []
         for k, v in defines.items():
             args.extend(["-D", "%s=%s" % (k, v)] if rng.random() < 0.5 else ["--define", "%s=%s" % (k, v)])
@@ -459,6 +460,17 @@ def userdata_cases(mon, sc, rng, n):
                 got = (repr(ex), None)
             mon.case(("getter", getter, raw), True)
             mon.check("userdata.getters", got == want, lambda: dict(raw=raw, getter=getter, got=got, want=want))
+            # a default given by the caller is for a MISSING name only: a defined value (also one that converts to 0 / 0.0 /
+            # False) is returned converted
+            for dflt in (True, None, 99, "dflt"):
+                try:
+                    got2 = ("value", getattr(ud, getter)("k", dflt))
+                except ValueError:
+                    got2 = ("ValueError", None)
+                except Exception as ex:
+                    got2 = (repr(ex), None)
+                ok2 = got2 == want and (want[0] != "value" or type(got2[1]) is type(want[1]))
+                mon.check("userdata.getters", ok2, lambda: dict(raw=raw, getter=getter, default=dflt, got=got2, want=want))
             d = rng.choice([5, None, "dflt"])
             got_d = getattr(ud, getter)("missing", d)
             mon.check("userdata.getters", got_d is d or got_d == d, lambda: dict(getter=getter, missing=True, default=d, got=got_d))
